@@ -69,6 +69,19 @@ def scope_fns(ctx):
     return out
 
 
+def _closure_args(g, t):
+    out = []
+    for a in t["a"]:
+        p = vf.op_place(a)
+        if not p or p[1]:
+            continue
+        for bb in g.bbs:
+            for s in bb["s"]:
+                if s["k"] == "a" and s["d"] == [p[0], []] and s["r"]["k"] == "agg" and s["r"].get("ak") == "closure":
+                    out.append(s["r"]["adt"])
+    return out
+
+
 def run(ctx):
     run = ctx.run
     db = ctx.db
@@ -80,7 +93,7 @@ def run(ctx):
     fns = [f for f in fns if f.id in par or f.root_fn(db) in par]
     run.extra["functions_in_scope"] = len(fns)
     used = {}
-    for s in sorted(panics.all_sites(fns), key=lambda s: (s.fn.id, s.sp)):
+    for s in sorted(panics.all_sites(fns, ctx.db), key=lambda s: (s.fn.id, s.sp)):
         what = "%s %s" % (s.kind, s.detail)
         item = {"fn": pp.short(s.fn.id), "site": s.site(), "what": what}
         if s.discharged:
@@ -333,5 +346,105 @@ def run(ctx):
         run.instance(R4, {"fn": "build_send_tx", "obligation": "with amount_includes_fee the recipient amount is amount.checked_sub(fee)"}, held=held)
         if not held:
             run.finding(Finding(R4, bst.id, "recipient amount is not reduced by the fee under amount_includes_fee", site=bst.loc()))
+    R5 = "C01.R5"
+    run.rule(R5, "an agreed (fixed) fee is binding: build_send_tx goes on only when the re-computed fee equals it", floor=1)
+    if bst:
+        fx = [p[0] for n, p, a in bst.vars if n == "fixed_fee" and a > 0 and not p[1]]
+        fixed_arg = fx[0] if fx else None
+        found = []
+        for g in [bst] + [db.fns[k] for k in db.closures_of(bst.id)]:
+            for x in cfg.comparisons(g):
+                pl, pr = vf.producers(g, x.l), vf.producers(g, x.r)
+                if g.dk == "Closure":
+                    # |f| fee <op> f : closure parameter against a captured value, closure applied to fixed_fee
+                    sides = [any(y[0] == "arg" and y[1] == 2 for y in p) for p in (pl, pr)]
+                    caps = [any(y[0] == "field" and y[1] == g.id for y in p) for p in (pl, pr)]
+                    if not ((sides[0] and caps[1]) or (sides[1] and caps[0])):
+                        continue
+                    applied = False
+                    for b, t in bst.calls():
+                        if g.id in _closure_args(bst, t) and t["a"] and fixed_arg is not None and any(y[0] == "arg" and y[1] == fixed_arg for y in vf.producers(bst, t["a"][0])):
+                            applied = True
+                    if applied:
+                        found.append((g, x))
+                elif fixed_arg is not None:
+                    if any(y[0] == "arg" and y[1] == fixed_arg for y in pl | pr):
+                        found.append((g, x))
+        if not found:
+            run.error("C01.R5: comparison of the re-computed fee with fixed_fee not found in build_send_tx (anchor missing)")
+        for g, x in found:
+            held = x.op in ("Eq", "Ne")
+            run.instance(R5, {"fn": pp.short(g.id), "obligation": "fee compared with the fixed fee by (in)equality", "op": x.op, "site": x.site()}, held=held)
+            if not held:
+                run.finding(Finding(R5, bst.id, "the re-computed fee is accepted although it differs from the agreed fixed fee (comparison %s instead of !=)" % x.op, site=x.site()))
+        if found:
+            # the mismatch edge returns an error before anything is built
+            ret_err = cfg.error_return_blocks(bst)
+            ate = cfg.find_calls(bst, c.LW + "slate::Slate::add_transaction_elements")
+            guard_calls = [(b, t) for b, t in bst.calls() if t.get("f", "").endswith("Option::<T>::unwrap_or") or t.get("f", "").endswith("Option::<T>::map_or") or t.get("f", "").endswith("Option::<T>::is_some_and")]
+            h = False
+            for b, t in guard_calls:
+                gd = cfg.call_guard(bst, b)
+                # bool result: gd.fail = the false edge (no mismatch)
+                if gd.fail and ate and cfg.must_pass(bst, gd.fail, {bb for bb, _t in ate})[0]:
+                    h = True
+            if not guard_calls:
+                h = None
+            if h is not None:
+                run.instance(R5, {"fn": "build_send_tx", "obligation": "transaction elements are added only on the no-mismatch edge"}, held=h)
+                if not h:
+                    run.finding(Finding(R5, bst.id, "transaction elements are built although the fee mismatch test did not pass", site=bst.loc()))
+    R6 = "C01.R6"
+    run.rule(R6, "sufficient funds gate: select_coins_and_fee returns Ok only after total >= amount_with_fee was tested on the final values", floor=3)
+    if scf:
+        def is_total(p):
+            return any(y[0] == "call" and y[1].endswith("Iterator::sum") for y in p)
+
+        def is_needed(p):
+            return any(y[0] == "call" and y[1].endswith("selection::amount_plus_fee") for y in p) or (any(y[0] == "arg" for y in p) and not is_total(p))
+
+        good = set()
+        ncmp = 0
+        tot_locals, need_locals = set(), set()
+        for x in cfg.comparisons(scf):
+            for (l, r, swap) in ((x.l, x.r, False), (x.r, x.l, True)):
+                pl, pr = vf.producers(scf, l), vf.producers(scf, r)
+                if not (is_total(pl) and is_needed(pr) and any(y[0] == "call" and y[1].endswith("selection::amount_plus_fee") for y in pr)):
+                    continue
+                op = x.op if not swap else cfg._SWAP[x.op]
+                ncmp += 1
+                tl, nl = vf.strip_clones(scf, l), vf.strip_clones(scf, r)
+                if tl is not None:
+                    tot_locals.add(tl)
+                if nl is not None:
+                    need_locals.add(nl)
+                if op in ("Lt", "Ne"):
+                    good |= x.false_edges
+                elif op in ("Ge", "Eq"):
+                    good |= x.true_edges
+        if ncmp < 2 or not good:
+            run.error("C01.R6: comparisons of the selected total with amount_with_fee not found in select_coins_and_fee (anchor missing)")
+        else:
+            okb = cfg.ok_value_blocks(scf)
+            err = cfg.error_return_blocks(scf)
+            # every (re)definition of total / amount_with_fee must be followed by the test before Ok
+            defs_b = set()
+            for b, bb in enumerate(scf.bbs):
+                if bb["cleanup"]:
+                    continue
+                for st in bb["s"]:
+                    if st["k"] == "a" and not st["d"][1] and st["d"][0] in (tot_locals | need_locals):
+                        defs_b.add(b)
+                t = bb["t"]
+                if t["k"] == "call" and not t["d"][1] and t["d"][0] in (tot_locals | need_locals) and t["t"] is not None:
+                    defs_b.add(t["t"])
+            n = 0
+            for d in sorted(defs_b):
+                par = cfg.reach(scf, starts=(d,), cut_edges=good, cut_nodes=err)
+                bad = [b for b in okb if b in par]
+                n += 1
+                run.instance(R6, {"fn": "select_coins_and_fee", "obligation": "after the assignment in bb%d, Ok is returned only through a total >= amount_with_fee edge" % d}, held=not bad)
+                if bad:
+                    run.finding(Finding(R6, scf.id, "Ok(selection) is reachable after total / amount_with_fee were (re)computed without testing total >= amount_with_fee", site=c.site_of(scf, d), detail="path: %s" % cfg.describe_path(scf, cfg.path_to(par, bad[0]))))
     run.not_decided += ["the conservation equation total = A + fee + change itself (numeric)", "'fee >= network minimum' as a number (relies on grin_core::libtx::tx_fee)", "arithmetic of the change split"]
     run.assumptions.append(_SUPPLY)
